@@ -4,6 +4,7 @@
 package kobj
 
 import (
+	"time"
 	"sync/atomic"
 	"fmt"
 	"sort"
@@ -180,6 +181,15 @@ type Obj struct {
 	INS, INM int
 	Backend  int   // SIngress
 	Paths    []int // SIngress
+
+	// Scale: spec.replicas of a workload (0: unset, 1: zero replicas, 2: three).
+	// Ownership of pods does not depend on it; not part of the model's encoding.
+	Scale int
+
+	// Terminating: the object carries a deletionTimestamp (graceful deletion in
+	// progress); it is still listed and watched like any other object.  Not part
+	// of the encoding for the model: no part of the library may depend on it.
+	Terminating bool
 }
 
 func (o *Obj) Enc() enc.T {
@@ -216,7 +226,13 @@ func EncObjs(os []*Obj) enc.T {
 }
 
 func (o *Obj) meta() metav1.ObjectMeta {
+	var dt *metav1.Time
+	if o.Terminating {
+		t := metav1.NewTime(time.Unix(946684800, 0))
+		dt = &t
+	}
 	return metav1.ObjectMeta{
+		DeletionTimestamp: dt,
 		Namespace:       Str(o.NS),
 		Name:            Str(o.NM),
 		ResourceVersion: o.RV,
@@ -239,6 +255,18 @@ func podTemplate(m Map) corev1.PodTemplateSpec {
 }
 
 // Go builds the real typed object.
+func (o *Obj) replicas() *int32 {
+	switch o.Scale {
+	case 1:
+		n := int32(0)
+		return &n
+	case 2:
+		n := int32(3)
+		return &n
+	}
+	return nil
+}
+
 func (o *Obj) Go() metav1.Object {
 	m := o.meta()
 	switch o.Kind {
@@ -248,15 +276,15 @@ func (o *Obj) Go() metav1.Object {
 		return &corev1.Service{ObjectMeta: m, Spec: corev1.ServiceSpec{Selector: o.Sel.Go()}}
 	case KRC:
 		t := podTemplate(o.Tmpl)
-		return &corev1.ReplicationController{ObjectMeta: m, Spec: corev1.ReplicationControllerSpec{Selector: o.Sel.Go(), Template: &t}}
+		return &corev1.ReplicationController{ObjectMeta: m, Spec: corev1.ReplicationControllerSpec{Replicas: o.replicas(), Selector: o.Sel.Go(), Template: &t}}
 	case KRS:
-		return &appsv1.ReplicaSet{ObjectMeta: m, Spec: appsv1.ReplicaSetSpec{Selector: o.LSel.Go(), Template: podTemplate(o.Tmpl)}}
+		return &appsv1.ReplicaSet{ObjectMeta: m, Spec: appsv1.ReplicaSetSpec{Replicas: o.replicas(), Selector: o.LSel.Go(), Template: podTemplate(o.Tmpl)}}
 	case KDeployment:
-		return &appsv1.Deployment{ObjectMeta: m, Spec: appsv1.DeploymentSpec{Selector: o.LSel.Go(), Template: podTemplate(o.Tmpl)}}
+		return &appsv1.Deployment{ObjectMeta: m, Spec: appsv1.DeploymentSpec{Replicas: o.replicas(), Selector: o.LSel.Go(), Template: podTemplate(o.Tmpl)}}
 	case KDaemonSet:
 		return &appsv1.DaemonSet{ObjectMeta: m, Spec: appsv1.DaemonSetSpec{Selector: o.LSel.Go(), Template: podTemplate(o.Tmpl)}}
 	case KStatefulSet:
-		return &appsv1.StatefulSet{ObjectMeta: m, Spec: appsv1.StatefulSetSpec{Selector: o.LSel.Go(), Template: podTemplate(o.Tmpl)}}
+		return &appsv1.StatefulSet{ObjectMeta: m, Spec: appsv1.StatefulSetSpec{Replicas: o.replicas(), Selector: o.LSel.Go(), Template: podTemplate(o.Tmpl)}}
 	case KJob:
 		return &batchv1.Job{ObjectMeta: m, Spec: batchv1.JobSpec{Selector: o.LSel.Go(), Template: podTemplate(o.Tmpl)}}
 	case KEvent:
@@ -420,7 +448,18 @@ func (f *Filt) Go() filter.Filter {
 		}
 		return pod.NodeFilter(names...)
 	case FInvolved:
-		return event.InvolvedFilter(Str(f.K), Str(f.NS), Str(f.NM))
+		// both constructors, rotating: from the three strings, and from an object
+		// (of the core group, and of a named API group: the kind is the bare kind)
+		switch r := nsnameRoute.Add(1) % 3; r {
+		case 0:
+			return event.InvolvedFilter(Str(f.K), Str(f.NS), Str(f.NM))
+		default:
+			o := &metav1.PartialObjectMetadata{
+				TypeMeta:   metav1.TypeMeta{Kind: Str(f.K), APIVersion: []string{"", "v1", "apps/v1"}[r]},
+				ObjectMeta: metav1.ObjectMeta{Namespace: Str(f.NS), Name: Str(f.NM)},
+			}
+			return event.InvolvedObjectFilter(o)
+		}
 	case FSelectorMatch:
 		return service.SelectorMatchFilter(f.Map.Go())
 	case FServicePods:
